@@ -29,6 +29,9 @@ Clauses of the property and where they are:
 * hardening pass: item-wise = batched (`update_item_local`, `update_entry_local`, `normal_matrix_separable`,
   `lm_Ak_separable`), trial histories compose (`lm_Ak_append`), calls are independent (`calls_independent`)
 * hardening pass 2: `failed_call_atomic`, `successful_call`, `history_without_failed_call`, `twins_independent`
+* pass 3: `weightMat_documented` (documented weights never raise), `lm_normal_item` (JᵀWJ = Σ_items J_tᵀ W_t J_t),
+  `gn_step_spec` (end to end), `lm_Ak_posDef_of_full_rank`, `lm_A0_indefinite_when_max_cuts`, glue: `served_default`,
+  `served_one_kernel`, `served_kernel_list`, `served_user`, `step_weight_overrides`, `residuals_spec`, `lm_defaults_ok`
 -/
 namespace PP.GNStep
 open Finset Matrix
@@ -696,5 +699,220 @@ theorem twins_independent {σ : Type} (cs : List (Bool × (σ → Option σ))) (
     · have := ih (callOrKeep f s.1, s.2)
       simp only [runTwins, List.foldl_cons, runCalls] at this ⊢
       simpa using this
+
+
+/-! ## pass 3: documented weights never raise; JᵀWJ item by item; end-to-end step; sharper positive definiteness; glue -/
+
+/-- **Documented weights are always accepted** (any number of residuals, any ranks, `d ≥ 1`): for residual shapes
+`pre_i ++ suf_i ++ [d_i]` with weights of shape `suf_i ++ [d_i, d_i]`, `normalize_RWJ` builds a block-diagonal weight of
+exactly the size of the stacked residual, so neither the `assert` nor `weight @ J` can fail, and the blocks are square
+and aligned with the residuals (the hypotheses of `weight_expand_general`, `gn_rhs_item`, `gn_A_item`, `lm_normal_item`). -/
+theorem weightMat_documented (ps : List DocPair) (hv : ∀ p ∈ ps, p.valid) (wd : List (Nat → ℝ)) (hl : wd.length = ps.length) :
+    ∃ bs, weightMat (ps.map (·.rshape)) (some (List.zipWith (fun p w => (p.wshape, w)) ps wd)) (total (ps.map (·.numel)))
+        = some (some (blockDiag bs)) ∧
+      (∀ B ∈ bs, B.h = B.w ∧ 0 < B.h) ∧ bs.map (·.cols) = ps.map (·.numel) ∧ bs.map (·.rows) = ps.map (·.numel) := by
+  obtain ⟨bs, hbs, _, hsq, hr, hc⟩ := allBlocks_documented ps hv wd hl
+  refine ⟨bs, ?_, hsq, hc, hr⟩
+  simp only [weightMat, hbs, wRows, wCols, hr, hc, and_self, if_true]
+
+example : (⟨[2], [3], 2⟩ : DocPair).valid := ⟨by decide, by simp [prod]⟩
+
+/-- **`JᵀWJ` is the sum over residual items of `J_tᵀ W_t J_t`** (any number of residuals, any documented weights):
+the LM normal matrix weights every item by its own (broadcast) matrix and nothing else. -/
+theorem lm_normal_item (rs : List (Res ℝ)) (bs : List (WBlocks ℝ)) (hsq : ∀ B ∈ bs, B.h = B.w ∧ 0 < B.h)
+    (hshape : bs.map (·.cols) = rs.map (·.rows)) (p q : Nat) :
+    lmNormal (totalRows rs) (lmJT (totalRows rs) (some (blockDiag bs)) (catJ rs)) (catJ rs) p q
+      = ∑ i ∈ range bs.length, ∑ t ∈ range (bs.getD i default).cnt, ∑ a ∈ range (bs.getD i default).h,
+          (rs.getD i default).J (t * (bs.getD i default).h + a) p *
+            ∑ b ∈ range (bs.getD i default).h,
+              (bs.getD i default).blk (t % (bs.getD i default).nb) a b * (rs.getD i default).J (t * (bs.getD i default).h + b) q := by
+  have hlen : rs.length = bs.length := by
+    have := congrArg List.length hshape; simpa using this.symm
+  have hrows : bs.map (·.rows) = rs.map (·.rows) := by
+    rw [← hshape]
+    apply List.map_congr_left
+    intro B hB
+    simp only [WBlocks.rows, WBlocks.cols, (hsq B hB).1]
+  -- swap the two sums: Σ_s (Σ_r J r p W r s) J s q = Σ_r J r p (Σ_s W r s J s q)
+  have swap : lmNormal (totalRows rs) (lmJT (totalRows rs) (some (blockDiag bs)) (catJ rs)) (catJ rs) p q
+      = ∑ r ∈ range (totalRows rs), catJ rs r p * gnA (totalRows rs) (some (blockDiag bs)) (catJ rs) r q := by
+    simp only [lmNormal, lmJT, gnA, sumN_eq, Finset.sum_mul, Finset.mul_sum]
+    rw [Finset.sum_comm]
+    apply sum_congr rfl; intro r _
+    apply sum_congr rfl; intro s _
+    ring
+  rw [swap]
+  have htot : totalRows rs = total (bs.map (·.rows)) := by unfold totalRows; rw [hrows]
+  rw [htot, sum_segments, segSum_eq]
+  simp only [List.length_map]
+  apply sum_congr rfl
+  intro i hi
+  have hi := mem_range.mp hi
+  have hmem : bs.getD i default ∈ bs := by
+    simp only [List.getD_eq_getElem?_getD, List.getElem?_eq_getElem hi, Option.getD_some]; exact List.getElem_mem hi
+  have hB := hsq _ hmem
+  have hrow_i : (bs.map (·.rows)).getD i 0 = (bs.getD i default).cnt * (bs.getD i default).h := by
+    simp [List.getD_eq_getElem?_getD, List.getElem?_map, List.getElem?_eq_getElem hi, WBlocks.rows]
+  rw [hrow_i, sum_blocks]
+  apply sum_congr rfl; intro t ht
+  apply sum_congr rfl; intro a ha
+  have ht := mem_range.mp ht
+  have ha := mem_range.mp ha
+  have hJ : catJ rs (offset (bs.map (·.rows)) i + (t * (bs.getD i default).h + a)) p
+      = (rs.getD i default).J (t * (bs.getD i default).h + a) p := by
+    rw [hrows, catJ_at rs i _ p (by omega)]
+    have h1 := rows_getD rs i (by omega)
+    rw [← hrows] at h1
+    rw [← h1, hrow_i]
+    exact row_lt_rows _ _ _ _ ht ha
+  rw [hJ, ← htot, gn_A_item rs bs hsq hshape i t a q hi ht ha]
+
+
+/-- **End to end, Gauss–Newton.**  If `step` succeeds with a solver whose answer satisfies the normal equations of the
+system it was handed (the contract of `PINV` / `LSTSQ`), then: the residuals were corrected by the configured correctors,
+weighted by the block-diagonal weight; the step `D` is a least-squares solution of `W J' δ = -W R'`; and every parameter
+is `add_` of its own slice of `D` (frozen ones untouched). -/
+theorem gn_step_spec (eps : ℝ) (n : Nat) (cs : List (Res ℝ → Res ℝ)) (rs : List (Res ℝ)) (rshapes : List (List Nat))
+    (weights : Option (List (List Nat × (Nat → ℝ)))) (solve : Sys ℝ → Option (Nat × (Nat → ℝ)))
+    (hsolve : ∀ S len D, solve S = some (len, D) →
+      (toMat S.m S.n S.A)ᵀ *ᵥ (toMat S.m S.n S.A *ᵥ toVec S.n D - toVec S.m S.b) = 0)
+    (ps out : List (Param ℝ))
+    (h : gnCall eps (fun _ => gnSystem n cs rs rshapes weights) solve ps = some out) :
+    ∃ rs' W len D, correctAll cs rs = some rs' ∧ weightMat rshapes weights (totalRows rs') = some W ∧
+      (∀ δ' : Fin n → ℝ,
+        nrm2 (toMat (totalRows rs') n (gnA (totalRows rs') W (catJ rs')) *ᵥ toVec n D - toVec (totalRows rs') (gnb (totalRows rs') W (catR rs')))
+          ≤ nrm2 (toMat (totalRows rs') n (gnA (totalRows rs') W (catJ rs')) *ᵥ δ' - toVec (totalRows rs') (gnb (totalRows rs') W (catR rs')))) ∧
+      (∀ j, j < ps.length → out.getD j default =
+        if (ps.getD j default).rg then addParam eps (ps.getD j default) (fun i => D (trainOffset ps j + i))
+        else ps.getD j default) ∧ trainTotal ps = len := by
+  obtain ⟨S, len, D, hS, hv, hu⟩ := successful_call eps _ solve ps out h
+  obtain ⟨rs', W, hc, hw, hm, hn, hA, hb⟩ := gnSystem_spec n cs rs rshapes weights S hS
+  refine ⟨rs', W, len, D, hc, hw, ?_, ?_, ?_⟩
+  · intro δ'
+    have hne := hsolve S len D hv
+    rw [hm, hn, hA, hb] at hne
+    exact ls_of_normal _ _ _ hne δ'
+  · intro j hj
+    exact update_slices eps ps out len D hu j hj
+  · by_contra hne
+    rw [(step_raises_iff eps ps len D).mpr hne] at hu
+    exact absurd hu (by simp)
+
+/-- **Positive definiteness without damping**: for a positive definite weight and a Jacobian of full column rank the
+matrix of every trial is positive definite as soon as `∏(1+λ) ≥ 1` (in particular before any damping). -/
+theorem lm_Ak_posDef_of_full_rank (m n : Nat) (lo hi : ℝ) (hlo : 0 < lo) (hle : lo ≤ hi) (W J : Nat → Nat → ℝ)
+    (hW : (toMat m m W).PosDef) (hJ : Function.Injective (toMat m n J).mulVec) (lams : List ℝ)
+    (hprod : 1 ≤ (lams.map fun l => 1 + l).prod)
+    (hdiag : ∀ i, i < n → lmNormal m (lmJT m (some W) J) J i i ≤ hi) :
+    (toMat n n (lmAk (lmA0 m lo hi (some W) J) lams)).PosDef := by
+  rw [toMat_lmAk, toMat_lmNormal, toMat_lmJT_some]
+  have h1 : ((toMat m n J)ᵀ * toMat m m W * toMat m n J).PosDef := by
+    have := PosDef.conjTranspose_mul_mul_same hW hJ
+    rwa [conjTranspose_eq_transpose_of_trivial] at this
+  apply PosDef.add_posSemidef h1
+  apply PosSemidef.diagonal
+  intro i
+  have hc := sclamp_ge_self lo hi _ (hdiag i i.2)
+  have hp := sclamp_pos lo hi (lmNormal m (lmJT m (some W) J) J i i) hlo (lt_of_lt_of_le hlo hle)
+  have : dampProd lams = (lams.map fun l => 1 + l).prod := rfl
+  simp only [Pi.zero_apply, this]
+  nlinarith
+
+/-- **The hypothesis `diag ≤ max` is needed**: a `max` clamp that cuts the diagonal can make `A_0` indefinite
+(`J = [1 1]`, `W = 1`, clamps `[1/4, 1/2]`: `A_0 = [[1/2, 1], [1, 1/2]]`, `(1,-1)ᵀ A_0 (1,-1) = -1`). -/
+theorem lm_A0_indefinite_when_max_cuts :
+    ¬ (toMat 2 2 (lmAk (lmA0 1 (1/4) (1/2) (some fun _ _ => 1) fun _ _ => 1) [])).PosDef := by
+  intro h
+  have hx : (![1, -1] : Fin 2 → ℝ) ≠ 0 := by
+    intro e; have := congrFun e 0; simp at this
+  have := h.dotProduct_mulVec_pos hx
+  simp [toMat, lmAk, lmA0, clampDiag, lmNormal, lmJT, sumN, sclamp_real, Matrix.mulVec, dotProduct, Fin.sum_univ_two] at this
+  norm_num at this
+
+
+/-! ### glue -/
+
+/-- no kernel, no corrector: every residual passes through unchanged -/
+theorem served_default {κ γ : Type} (i : Nat) : servedBy (κ := κ) (γ := γ) Arg.none Arg.none i = some CorrSel.trivial := by
+  simp [servedBy, configCorrectors, kernelList, pickCorrector]
+
+/-- one kernel, no corrector: every residual is corrected by `FastTriggs` of that kernel -/
+theorem served_one_kernel {κ γ : Type} (k : κ) (i : Nat) :
+    servedBy (γ := γ) (Arg.one k) Arg.none i = some (CorrSel.auto (some k)) := by
+  simp [servedBy, configCorrectors, kernelList, pickCorrector]
+
+/-- a list of kernels (not of length one), no corrector: residual `i` is corrected by `FastTriggs` of *its own* kernel
+(`Trivial` where the entry is `None`); with fewer kernels than residuals the step raises -/
+theorem served_kernel_list {κ γ : Type} (ks : List (Option κ)) (h : ks.length ≠ 1) (i : Nat) :
+    servedBy (γ := γ) (Arg.many ks) Arg.none i = (ks[i]?).map CorrSel.auto := by
+  simp [servedBy, configCorrectors, kernelList, pickCorrector, h, List.getElem?_map]
+
+/-- a corrector that is given always wins over the kernels, whatever they are -/
+theorem served_user {κ γ : Type} (ka : Arg κ) (c : γ) (i : Nat) : servedBy ka (Arg.one c) i = some (CorrSel.user c) := by
+  simp [servedBy, configCorrectors, pickCorrector]
+
+/-- a weight passed to `step` overrides the constructor's; without it the constructor's is used -/
+theorem step_weight_overrides {ω : Type} (c : Option ω) (s : ω) :
+    selectWeight c (some s) = some s ∧ selectWeight c none = c := ⟨rfl, rfl⟩
+
+/-- residual `i` is `output_i - target_i`, or `output_i` where no target is given, for any number of outputs -/
+theorem residuals_spec (outs : List (Nat → ℝ)) (ts : List (Option (Nat → ℝ))) (hl : outs.length ≤ ts.length)
+    (i : Nat) (hi : i < outs.length) :
+    ∃ rs, residualsOf outs (some ts) = some rs ∧ rs.length = outs.length ∧
+      rs[i]? = some (residualOf outs[i] (ts[i]'(by omega))) ∧
+      (∀ j, residualOf outs[i] (some fun _ => (0 : ℝ)) j = outs[i] j - 0) ∧ residualsOf outs none = some outs := by
+  refine ⟨(outs.zip ts).map fun p => residualOf p.1 p.2, ?_, ?_, ?_, fun j => rfl, rfl⟩
+  · simp [residualsOf, Nat.not_lt.mpr hl]
+  · simp [List.length_zip, Nat.min_eq_left hl]
+  · simp [List.getElem?_map, List.getElem?_zip_eq_some, List.getElem?_eq_getElem hi, List.getElem?_eq_getElem (show i < ts.length by omega)]
+
+/-- LM's defaults satisfy the side conditions of `lm_Ak_posDef` / `lm_trial_minimises`: `0 < min ≤ max` -/
+theorem lm_defaults_ok : 0 < (lmConfig (α := ℝ) none none none).lo ∧
+    (lmConfig (α := ℝ) none none none).lo ≤ (lmConfig (α := ℝ) none none none).hi ∧
+    (lmConfig (α := ℝ) none none none).reject = 16 := by
+  refine ⟨?_, ?_, rfl⟩
+  · simp only [lmConfig, q_real]; positivity
+  · simp only [lmConfig, q_real, k_real]; norm_num
+
+
+/-- the solver contract of `gn_step_spec` is satisfiable by a solver that actually answers: on the toy system
+`2 δ = -2` it returns `δ = -1`, on anything else it raises -/
+example : ∃ solve : Sys ℝ → Option (Nat × (Nat → ℝ)),
+    (∀ S len D, solve S = some (len, D) →
+      (toMat S.m S.n S.A)ᵀ *ᵥ (toMat S.m S.n S.A *ᵥ toVec S.n D - toVec S.m S.b) = 0) ∧
+    solve ⟨1, 1, fun _ _ => 2, fun _ => -2⟩ = some (1, fun _ => -1) := by
+  classical
+  refine ⟨fun S => if S.m = 1 ∧ S.n = 1 ∧ S.A 0 0 = 2 ∧ S.b 0 = -2 then some (1, fun _ => -1) else none, ?_, by simp⟩
+  intro S len D h
+  by_cases hc : S.m = 1 ∧ S.n = 1 ∧ S.A 0 0 = 2 ∧ S.b 0 = -2
+  · simp only [hc, and_self, if_true, Option.some.injEq, Prod.mk.injEq] at h
+    obtain ⟨hm, hn, hA, hb⟩ := hc
+    obtain ⟨S_m, S_n, S_A, S_b⟩ := S
+    simp only at hm hn hA hb
+    subst hm; subst hn
+    ext i
+    have hi : i = 0 := Subsingleton.elim _ _
+    subst hi
+    simp [toMat, toVec, Matrix.mulVec, dotProduct, ← h.2, hA, hb]
+  · simp [hc] at h
+
+/-- the hypotheses of `lm_Ak_posDef_of_full_rank` are satisfiable without any damping: `J = [2]`, `W = [1]` -/
+example : (toMat 1 1 (lmAk (lmA0 1 (1/2) 8 (some fun _ _ => 1) fun _ _ => 2) [])).PosDef := by
+  apply lm_Ak_posDef_of_full_rank 1 1 (1/2) 8 (by norm_num) (by norm_num)
+  · refine PosDef.of_dotProduct_mulVec_pos (by ext i j; simp [toMat, Matrix.conjTranspose]) fun x hx => ?_
+    have h0 : x 0 ≠ 0 := fun e => hx (by ext i; have : i = 0 := Subsingleton.elim _ _; rw [this, e]; rfl)
+    simp [toMat, Matrix.mulVec, dotProduct]
+    exact h0
+  · intro x y h
+    ext i
+    have := congrFun h 0
+    have hi : i = 0 := Subsingleton.elim _ _
+    simp [toMat, Matrix.mulVec, dotProduct] at this
+    rw [hi]; exact this
+  · simp
+  · intro i hi
+    have : i = 0 := by omega
+    subst this
+    simp [lmNormal, lmJT, sumN]; norm_num
 
 end PP.GNStep
